@@ -112,3 +112,10 @@ Definition reset (ops : list bop) : list bop := [].
 (* batch.Replay(w) onto a writer given by its per-op action (for a store: [apply]) *)
 Definition replay {S : Type} (act : bop -> S -> S) (ops : list bop) (s : S) : S :=
   fold_left (fun s' o => act o s') ops s.
+
+(* ---- well-formedness: strictly ascending keys ---- *)
+Fixpoint sorted (m : kv) : Prop :=
+  match m with
+  | [] => True
+  | kx :: r => Forall (fun kx' => blt (fst kx) (fst kx') = true) r /\ sorted r
+  end.
